@@ -451,6 +451,7 @@ type Contract struct {
 	File      string
 	Line      int
 	Options   map[string]string
+	Uses      []string // lemmas made available (entry and loop heads)
 }
 
 type Pred struct {
@@ -471,6 +472,7 @@ type Lemma struct {
 	Reason    string
 	File      string
 	Line      int
+	Triggers  [][]SExpr
 }
 
 type GhostDecl struct {
@@ -582,7 +584,7 @@ func clauseIndentOf(d *rawDecl, last int) int {
 
 func isClauseStart(w string) bool {
 	switch w {
-	case "requires", "ensures", "modifies", "pure", "loop", "assume", "trusted", "noinline", "serves", "option", "induction":
+	case "requires", "ensures", "modifies", "pure", "loop", "assume", "trusted", "noinline", "serves", "option", "induction", "uses", "trigger":
 		return true
 	}
 	return strings.HasPrefix(w, "ensures[") || strings.HasPrefix(w, "requires[")
@@ -722,6 +724,19 @@ func (db *SpecDB) parseDecl(d *rawDecl) error {
 			case "trusted":
 				lm.Trusted = true
 				lm.Reason = strings.Trim(body, "\"")
+			case "trigger":
+				// trigger { e1, e2 }
+				b := strings.TrimSpace(body)
+				b = strings.TrimSuffix(strings.TrimPrefix(b, "{"), "}")
+				var grp []SExpr
+				for _, part := range splitTopLevel(b) {
+					e, err := parseSpecExpr(strings.TrimSpace(part))
+					if err != nil {
+						return fmt.Errorf("lemma %s: trigger: %v", lm.Name, err)
+					}
+					grp = append(grp, e)
+				}
+				lm.Triggers = append(lm.Triggers, grp)
 			case "serves":
 				lm.Serves = append(lm.Serves, strings.Fields(body)...)
 			default:
@@ -795,6 +810,8 @@ func (db *SpecDB) parseDecl(d *rawDecl) error {
 			c.Options["trusted_reason"] = strings.Trim(body, "\"")
 		case "noinline":
 			c.NoInline = true
+		case "uses":
+			c.Uses = append(c.Uses, strings.TrimSpace(body))
 		case "serves":
 			c.Serves = append(c.Serves, strings.Fields(body)...)
 		case "option":
